@@ -1063,6 +1063,7 @@ leaflist_meta:
 LY_ERR
 json_print_data(struct ly_out *out, const struct lyd_node *root, uint32_t options)
 {
+    LY_ERR rc;
     const struct lyd_node *node;
     struct jsonpr_ctx pctx = {0};
     const char *delimiter = (options & LYD_PRINT_SHRINK) ? "" : "\n";
@@ -1086,7 +1087,12 @@ json_print_data(struct ly_out *out, const struct lyd_node *root, uint32_t option
     /* content */
     LY_LIST_FOR(root, node) {
         pctx.root = node;
-        LY_CHECK_RET(json_print_node(&pctx, node));
+        rc = json_print_node(&pctx, node);
+        if (rc) {
+            /* the set of open inner nodes is not empty in the middle of a subtree */
+            ly_set_erase(&pctx.open, NULL);
+            return rc;
+        }
         if (!(options & LYD_PRINT_WITHSIBLINGS)) {
             break;
         }
